@@ -104,7 +104,7 @@ package queue
 //@ # ---- queue (C05/C06) ----------------------------------------------------------------------------
 //@ globalinv ErrExceedingMessageSizeLimit != nil && ErrOutOfSequenceRange != nil && ErrMsgNotFound != nil
 //@ lock queue.rwMutex protects appendedSeq.val acknowledgedSeq.val dataPageIndex indexPageIndex messageOffset dataPage indexPage
-//@ predicate qOK(q *queue) bool = q.rwMutex != nil && page.pageOK(q.metaPage) && page.psize(q.metaPage) >= 24 && page.factoryOK(q.indexPageFct) && page.factoryOK(q.dataPageFct) && page.fpsize(q.indexPageFct) == 4194304 && page.fpsize(q.dataPageFct) >= 134217728 && q.indexPageFct != q.dataPageFct
+//@ predicate qOK(q *queue) bool = q.rwMutex != nil && page.pageOK(q.metaPage) && page.psize(q.metaPage) >= 24 && page.factoryOK(q.indexPageFct) && page.factoryOK(q.dataPageFct) && page.fpsize(q.indexPageFct) == 4194304 && page.fpsize(q.dataPageFct) >= 134217728 && q.indexPageFct != q.dataPageFct && page.pfactory(q.metaPage) != q.indexPageFct && page.pfactory(q.metaPage) != q.dataPageFct
 //@ predicate qMetaPersisted(q *queue) bool = page.get64(page.pbytes(q.metaPage), 0) == uint64(q.appendedSeq.val) && page.get64(page.pbytes(q.metaPage), 8) == uint64(q.acknowledgedSeq.val)
 //@ # index entry of sequence s: (data page id, offset, length), 16 bytes at (s % 262144) * 16 of index page s / 262144
 //@ predicate eDP(q *queue, s int64) int64 = int64(page.get64(page.pbytes(page.fpage(q.indexPageFct, s / 262144)), int((s % 262144) * 16)))
@@ -195,4 +195,44 @@ package queue
 //@   ensures[pers_ack] result1 == nil ==> page.get64(page.pbytes(cast(result0, "*consumerGroup").metaPage), 8) == uint64(CGack(result0))
 //@   ensures[not_below_queue_ack] result1 == nil ==> (CGack(result0) >= Qack(FQqueue(q)) || (CGack(result0) == 0 - 1 && CGcons(result0) == 0 - 1))
 //@   ensures[ack_le_consumed] result1 == nil ==> (0 - 1 <= CGack(result0) && CGack(result0) <= CGcons(result0))
+//@ end
+
+//@ # ---- garbage collection (C06) ---------------------------------------------------------------------
+//@ func queue.GC
+//@   prop C06
+//@   requires qOK(q)
+//@   modifies cast(q.dataPageFct, "*page.factory").pages[*], cast(q.dataPageFct, "*page.factory").size.val, cast(q.indexPageFct, "*page.factory").pages[*], cast(q.indexPageFct, "*page.factory").size.val, any(*page.mappedPage).closed.val
+//@   ensures[only_below_ack_index] all(id, "int64", (id >= q.acknowledgedSeq.val / 262144) ==> (page.fhas(q.indexPageFct, id) == old(page.fhas(q.indexPageFct, id)) && page.fpage(q.indexPageFct, id) == old(page.fpage(q.indexPageFct, id))))
+//@   ensures[only_below_ack_data] (q.acknowledgedSeq.val >= 0 && old(page.fhas(q.indexPageFct, q.acknowledgedSeq.val / 262144))) ==> all(id, "int64", (id >= old(eDP(q, q.acknowledgedSeq.val))) ==> (page.fhas(q.dataPageFct, id) == old(page.fhas(q.dataPageFct, id)) && page.fpage(q.dataPageFct, id) == old(page.fpage(q.dataPageFct, id))))
+//@   ensures[nothing_without_ack] (q.acknowledgedSeq.val < 0 || !old(page.fhas(q.indexPageFct, q.acknowledgedSeq.val / 262144))) ==> all(id, "int64", page.fhas(q.dataPageFct, id) == old(page.fhas(q.dataPageFct, id)) && page.fhas(q.indexPageFct, id) == old(page.fhas(q.indexPageFct, id)))
+//@   ensures[never_adds] all(id, "int64", (page.fhas(q.dataPageFct, id) ==> old(page.fhas(q.dataPageFct, id))) && (page.fhas(q.indexPageFct, id) ==> old(page.fhas(q.indexPageFct, id))))
+//@ end
+
+//@ # ---- appending and reading (C05) -----------------------------------------------------------------
+//@ # cursor state: the current data page is the mapped page dataPageIndex of the data factory
+//@ predicate qCursorOK(q *queue) bool = q.messageOffset >= 0 && q.messageOffset <= 134217728 && q.dataPageIndex >= 0 && q.dataPageIndex < 4611686018427387904 && page.fhas(q.dataPageFct, q.dataPageIndex) && page.fpage(q.dataPageFct, q.dataPageIndex) == q.dataPage && page.pageOK(q.dataPage) && page.psize(q.dataPage) >= 134217728
+//@ predicate qIndexOK(q *queue) bool = q.indexPageIndex >= 0 && page.fhas(q.indexPageFct, q.indexPageIndex) && page.fpage(q.indexPageFct, q.indexPageIndex) == q.indexPage && page.pageOK(q.indexPage) && page.psize(q.indexPage) == 4194304
+//@ func queue.alloc
+//@   prop C05
+//@   requires qOK(q) && qCursorOK(q) && dataLen >= 0 && dataLen <= 134217728 && q.dataPageIndex < 4611686018427387903
+//@   modifies q.messageOffset, q.dataPage, q.dataPageIndex, cast(q.dataPageFct, "*page.factory").pages[*], cast(q.dataPageFct, "*page.factory").size.val
+//@   ensures[region] err == nil ==> (offset >= 0 && offset + dataLen <= 134217728 && dataPageIndex == q.dataPageIndex && dataPage == q.dataPage && q.messageOffset == offset + dataLen)
+//@   ensures[same_page] (err == nil && old(q.messageOffset) + dataLen <= 134217728) ==> (offset == old(q.messageOffset) && q.dataPageIndex == old(q.dataPageIndex) && q.dataPage == old(q.dataPage))
+//@   ensures[next_page] (err == nil && old(q.messageOffset) + dataLen > 134217728) ==> (offset == 0 && q.dataPageIndex == old(q.dataPageIndex) + 1)
+//@   ensures[failed_alloc_keeps_cursor] err != nil ==> (q.messageOffset == old(q.messageOffset) && q.dataPageIndex == old(q.dataPageIndex) && q.dataPage == old(q.dataPage))
+//@   ensures[cursor] qCursorOK(q) && qOK(q)
+//@   ensures[old_pages_stay] all(id, "int64", old(page.fhas(q.dataPageFct, id)) ==> (page.fhas(q.dataPageFct, id) && page.fpage(q.dataPageFct, id) == old(page.fpage(q.dataPageFct, id))))
+//@ end
+//@ func queue.persistMetaOfMessage
+//@   prop C05
+//@   opaque get64 put64 get32 put32
+//@   uses get_put64 get_put32 get64_put64_other get64_put32_other get32_put64_other get32_put32_other
+//@   requires qOK(q) && qIndexOK(q) && seqOK(q.appendedSeq.val) && q.appendedSeq.val < 4611686018427387903
+//@   requires dataPageIndex >= 0 && dataLen >= 0 && dataLen <= 134217728 && messageOffset >= 0 && messageOffset <= 134217728
+//@   modifies q.appendedSeq.val, q.indexPage, q.indexPageIndex, cast(q.indexPageFct, "*page.factory").pages[*], cast(q.indexPageFct, "*page.factory").size.val, cast(q.metaPage, "*page.mappedPage").mappedBytes[*], cast(page.fpage(q.indexPageFct, (q.appendedSeq.val + 1) / 262144), "*page.mappedPage").mappedBytes[*], *
+//@   ensures[dense] result == nil ==> q.appendedSeq.val == old(q.appendedSeq.val) + 1
+//@   ensures[entry] result == nil ==> (eDP(q, q.appendedSeq.val) == dataPageIndex && eOff(q, q.appendedSeq.val) == messageOffset && eLen(q, q.appendedSeq.val) == dataLen)
+//@   ensures[persisted] result == nil ==> page.get64(page.pbytes(q.metaPage), 0) == uint64(q.appendedSeq.val)
+//@   ensures[failed] result != nil ==> q.appendedSeq.val == old(q.appendedSeq.val)
+//@   ensures[index_current] result == nil ==> (qIndexOK(q) && q.indexPageIndex == q.appendedSeq.val / 262144)
 //@ end
